@@ -4,6 +4,8 @@ mathematical definition (C04 table clause, C13 table clause).
 Input: the bytes of every static / monomorphic const as evaluated by rustc on
 the current tree (mirfacts 'data' records) plus type layouts.  Oracle: the
 reference arithmetic in refmath.py.  Every entry of every table is checked."""
+import re
+
 from . import refmath as rm
 from .report import Finding
 
@@ -47,7 +49,7 @@ class Decoder:
             return ("plain", PSECP)
         if p.endswith("w64::gf448::GF448"):
             return ("plain", P448)
-        if p.endswith("w32::gf448::GF448"):
+        if re.search(r"w32::gf448::(\w+::)?GF448$", p):
             return ("monty", P448, 448)
         if p.endswith("::GFb127"):
             return ("b127",)
@@ -82,7 +84,8 @@ class Decoder:
             return int.from_bytes(b[off:off + td["size"]], "little", signed=True)
         if k == "array":
             et = self.f.ty(td["elem"])
-            return [self.value(td["elem"], b, off + i * et["size"]) for i in range(td["len"])]
+            n = td["len"] if isinstance(td["len"], int) else (td["size"] // et["size"] if td.get("size") and et.get("size") else 0)
+            return [self.value(td["elem"], b, off + i * et["size"]) for i in range(n)]
         if k == "tuple":
             return [self.value(e, b, off + o) for e, o in zip(td["elems"], td["offsets"])]
         if k == "adt" and "variants" in td and not td["enum"]:
